@@ -104,7 +104,9 @@ def judge_tree(ctx, eng, tree, r, host_i, redundant, use_public=False):
     # printed unquoted
     out = eng.pp.pprint(d)
     lines = [l.strip() for l in out.split("\n")]
-    if f"{key.upper()} {stored}" not in lines:
+    want_stmt = f"{key.upper()} {stored}"
+    # (a literal may hold a line break: then the statement runs over several output lines)
+    if (want_stmt not in lines) if "\n" not in stored else (("\n    " + want_stmt + "\n") not in out):
         res.violation("stored-expression-not-printed-verbatim-unquoted", case, out, f"{key.upper()} {stored}")
     if len(res.samples) < 3 and nops >= 3:
         res.sample({"host": f"{typ}.{key}", "source": src, "stored": stored})
